@@ -545,7 +545,7 @@ fn columndef_call(rng: &mut Rng) -> Call<ColumnDef> {
 }
 
 fn table_create_call(rng: &mut Rng) -> Call<TableCreateStatement> {
-    match rng.below(11) {
+    match rng.below(12) {
         0 => call("table", "table", |s: &mut TableCreateStatement| {
             s.table(a("t"));
         }),
@@ -582,6 +582,9 @@ fn table_create_call(rng: &mut Rng) -> Call<TableCreateStatement> {
         }),
         9 => call("opt", "comment+engine", |s: &mut TableCreateStatement| {
             s.comment("cm").engine("InnoDB").collate("utf8mb4_unicode_ci").character_set("utf8mb4");
+        }),
+        10 => call("extra", "extra", |s: &mut TableCreateStatement| {
+            s.extra("WITHOUT ROWID");
         }),
         _ => call("flag", "temporary", |s: &mut TableCreateStatement| {
             s.temporary();
